@@ -319,6 +319,14 @@ func (fc *fnCtx) binop(st *state, i *ssa.BinOp) Val {
 		if op != "" {
 			return res(fmt.Sprintf("(%s %s %s)", op, x.T, y.T), x.S)
 		}
+		if (i.Op == token.QUO || i.Op == token.REM) && x.S == "Int" {
+			// Go's integer division truncates toward zero
+			fc.safety(st, "div-by-zero", fmt.Sprintf("(not (= %s 0))", y.T), i.Pos())
+			if i.Op == token.QUO {
+				return res(fmt.Sprintf("(godiv %s %s)", x.T, y.T), "Int")
+			}
+			return res(fmt.Sprintf("(- %s (* %s (godiv %s %s)))", x.T, y.T, x.T, y.T), "Int")
+		}
 		if i.Op == token.QUO && x.S == "Real" {
 			fc.safety(st, "div-by-zero", fmt.Sprintf("(not (= %s 0.0))", y.T), i.Pos())
 			return res(fmt.Sprintf("(/ %s %s)", x.T, y.T), "Real")
